@@ -138,6 +138,33 @@ pub fn c08_q_image_draw_sub_image_direct() {
     reach!(area.top_left.x >= 0 && area.top_left.y >= 0 && area.top_left.x as u32 + area.size.width <= 5 && area.top_left.y as u32 + area.size.height <= 8 && area.size.width > 0 && area.size.height > 0, "reach.valid_area");
 }
 
+/// raw `load`/`store` and `RawDataSlice::nth` with ANY usize index (also indices whose byte offset
+/// overflows) on buffers of every length 0..=7: rejected or served, never a panic
+macro_rules! c08_raw_index {
+    ($name:ident, [$(($raw:ty, $order:ty)),+ $(,)?]) => {
+        #[cfg_attr(kani, kani::proof, kani::unwind(10))]
+        pub fn $name() {
+            use embedded_graphics::iterator::raw::RawDataSlice;
+            let mut buf: [u8; 7] = bytes::<7>();
+            let n = upto(7) as usize;
+            let i: usize = kani::any();
+            note!("len", n); note!("index", i);
+            $( {
+                let l = <$raw>::load::<$order>(&buf[..n], i);
+                let r = <$raw>::from_u32(kani::any::<u32>()).store::<$order>(&mut buf[..n], i);
+                check!(l.is_some() == r.is_ok(), "C08.load_store_agree_on_range");
+                let mut it = RawDataSlice::<$raw, $order>::new(&buf[..n]).into_iter();
+                let _ = it.nth(i);
+                let _ = it.next();
+            } )+
+            reach!(i > usize::MAX / 4, "reach.huge_index");
+            reach!(n == 7 && i == 1, "reach.in_range");
+        }
+    };
+}
+c08_raw_index!(c08_q_raw_index_sub_byte, [(RawU1, LittleEndianMsb0), (RawU1, BigEndianLsb0), (RawU2, LittleEndianMsb0), (RawU2, BigEndianLsb0), (RawU4, LittleEndianMsb0), (RawU4, BigEndianLsb0)]);
+c08_raw_index!(c08_q_raw_index_bytes, [(RawU8, LittleEndianMsb0), (RawU8, BigEndianLsb0), (RawU16, LittleEndianMsb0), (RawU16, BigEndianLsb0), (RawU24, LittleEndianMsb0), (RawU24, BigEndianLsb0), (RawU32, LittleEndianMsb0), (RawU32, BigEndianLsb0)]);
+
 /// text queries with line heights up to 1024 px / 400 %, every baseline/alignment
 #[cfg_attr(kani, kani::proof, kani::unwind(9))]
 pub fn c08_q_text_queries() {
